@@ -249,7 +249,7 @@ package queue
 
 //@ # ---- garbage collection (C06) ---------------------------------------------------------------------
 //@ func queue.GC
-//@   prop C06
+//@   prop C05 C06
 //@   requires qOK(q)
 //@   modifies cast(q.dataPageFct, "*page.factory").pages[*], cast(q.dataPageFct, "*page.factory").size.val, cast(q.indexPageFct, "*page.factory").pages[*], cast(q.indexPageFct, "*page.factory").size.val, any(*page.mappedPage).closed.val
 //@   ensures[only_below_ack_index] all(id, "int64", (id >= q.acknowledgedSeq.val / 262144) ==> (page.fhas(q.indexPageFct, id) == old(page.fhas(q.indexPageFct, id)) && page.fpage(q.indexPageFct, id) == old(page.fpage(q.indexPageFct, id))))
@@ -375,4 +375,26 @@ package queue
 //@   focus data_pages_are_as_large_as_the_allocator_assumes
 //@   modifies *
 //@   ensures[data_pages_are_as_large_as_the_allocator_assumes] result1 == nil ==> (result0 != nil && typeis(result0, "*queue") && page.fpsize(cast(result0, "*queue").dataPageFct) >= 134217728)
+//@ end
+
+//@ # ---- reopening a fan-out queue (C06: "acknowledged and consumed positions survive reopen"; the queue-wide acknowledged
+//@ # position is the minimum over the REGISTERED groups): every consumer group found on disk is registered again, whether or
+//@ # not it has anything pending - a group that is left out no longer holds the queue's acknowledged position back, and the
+//@ # log is released beyond what that group has acknowledged ---------------------------------------------------------
+//@ func listDirFunc
+//@   assume
+//@   note lists the directory; no effect on program state
+//@   modifies nothing
+//@ end
+//@ func newConsumerGroupFunc
+//@   assume
+//@   note the variable holds NewConsumerGroup (verified under its own contract, C06); assumed here: opening a group builds a new object and leaves the queue's group registry alone
+//@   modifies nothing
+//@   fresh
+//@ end
+//@ func fanOutQueue.initConsumerGroups
+//@   prop C06
+//@   requires fq.consumerGroups != nil
+//@   modifies fq.consumerGroups[*]
+//@   loop 1 invariant[every_group_found_on_disk_is_registered_again] fq.consumerGroups != nil && forall(i, 0, rangeindex + 1, has(fq.consumerGroups, fileNames[i]))
 //@ end
